@@ -3,6 +3,7 @@
 #![allow(unused_imports, unused_variables, unused_mut, dead_code, non_snake_case, unused_parens, unused_braces)]
 use std::cmp::{max, min, Ordering};
 use std::mem::swap;
+use std::fmt;
 use std::io::Write;
 use std::collections::HashMap;
 use vstd::prelude::*;
